@@ -82,7 +82,7 @@ var modeGuardExceptions = map[string]string{
 
 var ruleModeGuard = &Rule{
 	Name: "R-MODEGUARD", NeedSSA: true,
-	Doc: "every suppressible error raised by an accessor step itself (the dispatcher's targets for member, wildcard, recursive-descent and subscript nodes, and their non-evaluating helpers) is control-dependent on strictness: it sits on the branch where the structural-error flag is off, or where auto-wrapping (lax) is off; conversion errors of subscript values are the tabled exceptions",
+	Doc: "every suppressible error raised by an accessor step itself (the dispatcher's targets for member, wildcard, recursive-descent and subscript nodes, and their non-evaluating helpers) is control-dependent on strictness: it sits on the branch where the structural-error flag is off, or where auto-wrapping (lax) is off; conversion errors of subscript values are the tabled exceptions; the subscript accessor does not raise its wrong-kind error through a helper that answers `not found` where the flag is on and that the member accessors raise through",
 	Run: func(p *Prog) *RuleOut {
 		out := newOut("R-MODEGUARD")
 		targets := p.accessorTargets()
